@@ -20,8 +20,12 @@ Lemma tie_C10 :
   /\ firstn 9 flow_client_Conn_write
      = ["if{"; "conn.rateLimit"; "if{"; "t.Seconds"; "time.After"; "recv time.After(t)"; "}"; "}";
         "conn.io.WriteString"]%string
-  (* Client() reads the clock exactly once (the "lastsent: time.Now()" initialisation; the
-     field name itself is not among the emitted facts) *)
+  (* ... under exactly the condition "!conn.cfg.Flood" (then "t != 0" guards the sleep), and
+     rateLimit's two tests are the floor and the 10 s threshold, strict *)
+  /\ firstn 2 conds_client_Conn_write = ["!conn.cfg.Flood"; "t != 0"]%string
+  /\ conds_client_Conn_rateLimit = ["conn.badness < 0"; "conn.badness > 10*time.Second"]%string
+  (* Client() initialises lastsent to the creation time (and reads the clock only there) *)
+  /\ existsb (String.eqb "lastsent: time.Now()") inits_client_Client = true
   /\ count_occ string_dec flow_client_Client "time.Now"%string = 1%nat.
 Proof. repeat split; vm_compute; reflexivity. Qed.
 
